@@ -319,6 +319,18 @@ def _rw(n, helpers):
                 a["body"] = b["stmts"][0]["expr"]
     if k == "ForLoop":
         n["iter"] = _norm_iter(n["iter"])
+        # `for (_, v) in map`  ==  `for v in map.into_values()` ; `for (k, _) in map` == `for k in map.into_keys()`
+        p = n["pat"]
+        if p["k"] == "PTuple" and len(p["elems"]) == 2 and (p["elems"][0]["k"] == "PWild") != (p["elems"][1]["k"] == "PWild"):
+            keep = 1 if p["elems"][0]["k"] == "PWild" else 0
+            it = n["iter"]
+            base, meth = it, None
+            if is_node(it) and it["k"] == "MethodCall" and it["method"] in ("iter", "iter_mut", "into_iter") and not it["args"]:
+                base, meth = it["receiver"], it["method"]
+            suffix = {"iter": "", "iter_mut": "_mut", "into_iter": "", None: ""}[meth]
+            name = ("values" if keep == 1 else "keys") + suffix if meth in ("iter", "iter_mut") else ("into_values" if keep == 1 else "into_keys")
+            n["pat"] = p["elems"][keep]
+            n["iter"] = {"k": "MethodCall", "receiver": base, "method": name, "args": [], "turbofish": "", "_oid": it.get("_oid") if is_node(it) else None}
     if k == "ExprStmt":
         e = n["expr"]
         if is_node(e) and e["k"] == "MethodCall" and e["method"] == "for_each" and len(e["args"]) == 1 and is_node(e["args"][0]) \
@@ -328,9 +340,21 @@ def _rw(n, helpers):
             n = {"k": "ForLoop", "pat": cl["inputs"][0], "iter": _norm_iter(e["receiver"]), "body": body, "_oid": n.get("_oid"), "line": n.get("line")}
             k = "ForLoop"
     if k == "Block":
-        # single-call-site private helpers are part of their caller
-        for s in n["stmts"]:
-            pass
+        # a nested block that binds nothing (left by inlining a helper) is spliced into its parent
+        out = []
+        for st in n["stmts"]:
+            e = st.get("expr") if st["k"] == "ExprStmt" else None
+            if is_node(e) and e["k"] == "Block" and not any(x["k"] == "Let" for x in e["stmts"]) and st is not n["stmts"][-1]:
+                out.extend(e["stmts"][:-1])
+                if e["stmts"]:
+                    last = e["stmts"][-1]
+                    if last["k"] == "ExprStmt" and not last.get("semi"):
+                        last = dict(last)
+                        last["semi"] = True
+                    out.append(last)
+            else:
+                out.append(st)
+        n["stmts"] = out
         _inline_lets(n)
     if k in ("Call", "MethodCall") and helpers:
         inl = _try_inline_helper(n, helpers)
